@@ -1770,3 +1770,29 @@ Proof.
       * lia.
       * exact HS.
 Qed.
+
+(** the calls made along a run are well-formed input for the theorems above *)
+Lemma calls_wf N ops : forall w lr, WorldInv (sw_w w) -> rounds_from lr ops ->
+  nondecr_from lr (calls_of N w ops) /\ Forall nonneg_upd (calls_of N w ops).
+Proof.
+  induction ops as [|rop r IH]; intros w lr Hi Hr; [simpl; split; [exact I | constructor]|].
+  destruct Hr as [Hle Hr]. simpl calls_of.
+  destruct (sp_step N w (fst rop) (snd rop)) as [[w' o]|] eqn:Es.
+  - assert (Hi' : WorldInv (sw_w w')) by (eapply sp_step_inv; eassumption).
+    destruct (IH w' (fst rop) Hi' Hr) as [H1 H2].
+    destruct (updating (snd rop)); simpl app.
+    + split; [simpl; split; [exact Hle | exact H1]|]. constructor; [|exact H2].
+      destruct Hi as [Hp _]. pose proof (inv_r_nonneg _ Hp) as [R1 R2]. pose proof (i_S0 _ Hp) as R3.
+      unfold nonneg_upd, upd_of. simpl. auto.
+    + split; [apply (nondecr_weaken _ (fst rop)); assumption | exact H2].
+  - destruct (IH w (fst rop) Hi Hr) as [H1 H2].
+    split; [apply (nondecr_weaken _ (fst rop)); assumption | exact H2].
+Qed.
+
+Theorem composed_ring N : 2 <= N -> forall ops w, WorldInv (sw_w w) -> sw_ring w = ring0 -> rounds_from 0 ops ->
+  wf_calls (calls_of N w ops) /\ sw_ring (sp_run N w ops) = ring_of N (calls_of N w ops).
+Proof.
+  intros HN ops w Hi H0 Hr. pose proof (calls_wf N ops w 0 Hi Hr) as Hwf. split; [exact Hwf|].
+  pose proof (sp_run_ring N ops w) as H1. rewrite H0 in H1.
+  rewrite (ring_refine N HN _ Hwf) in H1. inversion H1. reflexivity.
+Qed.
